@@ -51,6 +51,7 @@ fn dir_name() -> BoxedStrategy<String> {
         5 => (prop::sample::select(vec!["foo", "py312-mysqlclient", "a-b-c", "p5-DBD-mysql", "x", "libnbcompat", "é", "-lead", "font-adobe-100dpi", "tex-2up", "lib-2", "3proxy", "a-1-b", "1-2"]), prop::sample::select(vec!["1.0", "2.2.4nb1", "0", "1.0nb12", "20240101", "1.0rc1", ""]))
             .prop_map(|(b, v)| format!("{}-{}", b, v)),
         1 => prop::sample::select(vec!["nodash", "+COMMENT", "pkgdb.byfile.db"]).prop_map(String::from),
+        3 => prop::collection::vec(prop::sample::select(vec!["a", "foo", "2up", "100dpi", "p5", "X", "é", "1", "nb1", "1.0", "", "0nb2", "rc1", "+x"]), 1..=4).prop_map(|v| v.join("-")),
     ]
     .boxed()
 }
